@@ -164,8 +164,9 @@ def load_contracts(cdir=None) -> Dict[Tuple[str, str], Contract]:
 
 def parse_at_args(arg):
     # forms: fn_start | fn_end | loop_top N | loop_end N | before_loop N | after_loop N
-    #        before /regex/ [k] | after /regex/ [k]
-    m = re.match(r'(before|after)\s+/(.*)/\s*(\d+)?\s*$', arg)
+    #        before /regex/ [k] | after /regex/ [k] | before_stmt /regex/ [k]
+    #        (before_stmt: before the first line of the statement the matching line belongs to)
+    m = re.match(r'(before_stmt|before|after)\s+/(.*)/\s*(\d+)?\s*$', arg)
     if m:
         return [m.group(1), m.group(2), int(m.group(3) or 1)]
     parts = arg.split()
@@ -1035,19 +1036,31 @@ def splice_body(body, c: Contract, site):
                 inserts.append((st, text + '\n'))
             else:
                 inserts.append((toks[bc].end, '\n' + text + '\n'))
-        elif kind in ('before', 'after'):
+        elif kind in ('before', 'after', 'before_stmt'):
             rx, k = args
             # line-based anchor
             offs = []
             pos = 0
-            for line in body.split('\n'):
+            blines = body.split('\n')
+            starts = []
+            for ln, line in enumerate(blines):
+                starts.append(pos)
                 if re.search(rx, line):
-                    offs.append((pos, pos + len(line)))
+                    offs.append((pos, pos + len(line), ln))
                 pos += len(line) + 1
             if len(offs) < k:
                 raise LostAnchor('%s: anchor /%s/ #%d not found' % (site, rx, k))
-            a, b = offs[k - 1]
-            if kind == 'before':
+            a, b, ln = offs[k - 1]
+            if kind == 'before_stmt':
+                # walk up over continuation lines: the statement starts after a line that ends a statement or
+                # opens/closes a block, or after a comment or blank line
+                while ln > 0:
+                    prev = blines[ln - 1].strip()
+                    if prev == '' or prev.startswith('//') or prev[-1] in ';{}':
+                        break
+                    ln -= 1
+                a = starts[ln]
+            if kind in ('before', 'before_stmt'):
                 inserts.append((a, text + '\n'))
             else:
                 inserts.append((b, '\n' + text))
